@@ -63,26 +63,6 @@ def method_effect(ctx, key):
     return out
 
 
-VIEW_CALLS = ("Deref>::deref", "::as_str", "::as_slice", "AsRef", "::as_ref", "Borrow", "::borrow", "Clone>::clone", "Clone for i64>::clone",
-              "Index<std::ops::RangeFull>>::index")
-
-
-def carried_unchanged(t, leaf):
-    """t reaches a subterm satisfying leaf(.) through references, views (deref/as_str/as_slice) and nothing else:
-    no cast, arithmetic or other call sits between the result and the stored value."""
-    t = strip_refs(t)
-    while True:
-        if leaf(t):
-            return True
-        if is_call(t, *VIEW_CALLS) and call_args(t):
-            t = strip_refs(call_args(t)[0])
-            continue
-        if isinstance(t, tuple) and t and t[0] == "deref":
-            t = strip_refs(t[1])
-            continue
-        return False
-
-
 def primitives(ctx, rule):
     """insert_or_update overwrites/inserts `val` under `var` on every path; insert_or_push is entry(var).and_modify(push val).or_insert(val);
     SummaryValue::push appends in order.  Necessary for C07 (kind consistency, stored value = set value) and C08 (a repeated single-valued
@@ -190,3 +170,55 @@ def accessors(ctx, V, racc, rpay):
     ctx.floor(racc, "summary::Summary", "getters", counts["get"], 23)
     ctx.floor(racc, "summary::Summary", "setters", counts["set"], 23)
     ctx.floor(racc, "summary::Summary", "pushers", counts["push"], 6)
+
+
+def parse_rules(ctx, V, rule):
+    """SummaryVariable::from_str accepts exactly the 23 pkg_summary names (scrutinee = the input), each -> its variant; anything else -> Err(ParseVariable(name))"""
+    names = [v["name"] for v in V]
+    parse, default_ok = parse_table(ctx)
+    ctx.check(default_ok is True, rule + "-DEFAULT", FROMSTR_VAR, "default", "unknown name -> Err(ParseVariable(name))",
+              "default arm does not return Err(ParseVariable(<the name>))")
+    for v in V:
+        got = parse.get(v["name"])
+        ctx.check(got is not None and got[0] == v["variant"] and got[1], rule, FROMSTR_VAR, "name=%s" % v["name"],
+                  "%s -> %s" % (v["name"], v["variant"]),
+                  "%r parses to %s (scrutinee is input: %s), expected %s" % (v["name"], got and got[0], got and got[1], v["variant"]))
+    extra = sorted(set(parse) - set(names))
+    ctx.check(not extra, rule, FROMSTR_VAR, "no-extra-literals", "accepted literals = the 23 names",
+              "from_str accepts names outside pkg_summary(5): %s" % extra)
+    ctx.floor(rule, FROMSTR_VAR, "literals", len(parse), 23)
+    return parse
+
+
+def who_writes(ctx, rule):
+    """only insert_or_update / insert_or_push store into Summary.entries (removal-only methods are harmless)"""
+    fx = ctx.fx
+    writers_found = set()
+    for key, f in fx.bodies():
+        for b in f["blocks"]:
+            if b["cleanup"]:
+                continue
+            items = [(s["rv"], s["span"]) for s in b["stmts"] if s["k"] == "assign"]
+            for rv, spn in items:
+                pl = rv.get("place") if rv["k"] in ("ref", "rawptr") else None
+                if pl and (rv.get("bk") == "mut" or "Mut" in str(rv.get("bk"))):
+                    if any(e["k"] == "field" and e.get("name") == "entries" and e.get("ty", "").startswith("std::collections::HashMap<summary::SummaryVariable") for e in pl["p"]):
+                        writers_found.add(key)
+            for s in b["stmts"]:
+                if s["k"] == "assign":
+                    pl = s["place"]
+                    if pl["p"] and any(e["k"] == "field" and e.get("name") == "entries" and e.get("ty", "").startswith("std::collections::HashMap<summary::SummaryVariable") for e in pl["p"]):
+                        writers_found.add(key)
+    # a function that only removes (clear/remove/retain/drain/...) cannot store a value of the wrong kind
+    HARMLESS = {"clear", "remove", "remove_entry", "retain", "drain", "shrink_to_fit", "shrink_to", "reserve", "try_reserve", "len", "is_empty", "capacity"}
+    for k in sorted(writers_found - set(WRITERS)):
+        uses = [e for p in (ctx.paths(k) or []) for e in p.events if e.kind == "call" and e.args and
+                mentions(e.args[0], lambda s: s[0] == "field" and s[3] == "entries") and isinstance(e.args[0], tuple) and e.args[0][0] == "refmut"]
+        stores = [e for p in (ctx.paths(k) or []) for e in p.events if e.kind == "store" and mentions(e.place, lambda s: s[0] == "field" and s[3] == "entries")]
+        if uses and not stores and all(e.name.split("::")[-1] in HARMLESS for e in uses):
+            writers_found.discard(k)
+    unexpected = sorted(k for k in writers_found if k not in WRITERS)
+    ctx.check(not unexpected, rule, "summary::Summary.entries", "writers",
+              "only %s take &mut entries" % sorted(writers_found),
+              "functions other than insert_or_update/insert_or_push mutate Summary.entries: %s (kind consistency of stored values is no longer guaranteed)" % unexpected)
+    ctx.floor(rule, "summary::Summary.entries", "writer functions", len(writers_found & set(WRITERS)), 2)
